@@ -136,7 +136,7 @@ func (e *Engine) opaqueCall(st *State, id *smt.Term, args []Value, sig *types.Si
 			v.L[i] = e.k64(uint64(e.placeForPointee(lf.Ptee)))
 			continue
 		}
-		f := c.DeclFunc(fmt.Sprintf("call_%s_%d", smt.Sanitize(typeKey(sig)), i), argSorts, lf.Sort)
+		f := c.DeclFunc(fmt.Sprintf("call_%s_%d", smt.Sanitize(sigKey(sig)), i), argSorts, lf.Sort)
 		v.L[i] = c.App(f, argLeaves...)
 	}
 	e.constrain(v)
@@ -157,7 +157,7 @@ func (e *Engine) memByKey(st *State, key string, sort smt.Sort, kind leafKind) *
 	}
 	m, ok := e.initMem[key]
 	if !ok {
-		m = e.M.node(MemNode{kind: mInit, sort: sort, uf: e.C.DeclFunc("H_"+key, []smt.Sort{bv64, bv64}, sort)})
+		m = e.M.node(MemNode{kind: mInit, sort: sort, uf: e.C.DeclFuncInitial("H_"+key, []smt.Sort{bv64, bv64}, sort)})
 		e.initMem[key] = m
 	}
 	st.heap[key] = m
@@ -250,6 +250,38 @@ func (e *Engine) inline(st *State, fn *ssa.Function, args []Value, bindings []Va
 	if len(rets) == 0 {
 		return nil, nil
 	}
+	if e.paths && len(rets) > 1 {
+		// path mode: every way out of the callee continues separately in the caller
+		nres := fn.Signature.Results().Len()
+		var outs []callOut
+		for _, r := range rets {
+			if e.dead(r.st) {
+				continue
+			}
+			o := &State{pc: r.st.pc, heap: r.st.heap, defers: st.defers, derived: r.st.derived}
+			o.env = make(map[ssa.Value]Value, len(st.env)+1)
+			for k, v := range st.env {
+				o.env[k] = v
+			}
+			var val *Value
+			if nres > 0 {
+				var l []*smt.Term
+				for _, v := range r.vals {
+					l = append(l, v.L...)
+				}
+				val = &Value{T: resultType(fn.Signature), L: l}
+			}
+			outs = append(outs, callOut{val: val, st: o})
+		}
+		if len(outs) == 0 {
+			return nil, nil
+		}
+		if len(e.pending) > 0 {
+			panic(unsupported("nested multi-outcome calls in one instruction (path mode)"))
+		}
+		e.pending = outs[1:]
+		return outs[0].val, outs[0].st
+	}
 	var states []*State
 	nres := fn.Signature.Results().Len()
 	for _, r := range rets {
@@ -281,6 +313,9 @@ func (e *Engine) inline(st *State, fn *ssa.Function, args []Value, bindings []Va
 }
 
 func (e *Engine) runDefers(fr *frame, st *State) *State {
+	saveP := e.paths
+	e.paths = false // deferred calls are joined
+	defer func() { e.paths = saveP }()
 	for len(st.defers) > 0 {
 		d := st.defers[len(st.defers)-1]
 		st.defers = st.defers[:len(st.defers)-1]
@@ -756,4 +791,21 @@ func shortFn(fn *ssa.Function) string {
 	// strip package paths inside type arguments for readability
 	rel = strings.ReplaceAll(rel, pkg.Pkg.Path()+".", "")
 	return pkg.Pkg.Name() + "." + rel
+}
+
+// sigKey names a signature by its parameter and result types only (parameter names do not matter).
+func sigKey(sig *types.Signature) string {
+	var sb strings.Builder
+	sb.WriteString("func(")
+	for i := 0; i < sig.Params().Len(); i++ {
+		if i > 0 {
+			sb.WriteString(",")
+		}
+		sb.WriteString(typeKey(sig.Params().At(i).Type()))
+	}
+	sb.WriteString(")")
+	for i := 0; i < sig.Results().Len(); i++ {
+		sb.WriteString("," + typeKey(sig.Results().At(i).Type()))
+	}
+	return sb.String()
 }
